@@ -89,6 +89,7 @@ type printer struct {
 
 	lv    int
 	stack [][]*ast.Redir
+	base  int // here-documents below this level are not pending inside a substitution
 }
 
 func (p *printer) indent() {
@@ -106,7 +107,8 @@ func (p *printer) space() {
 func (p *printer) newline() {
 	p.w.WriteByte('\n')
 	// here-documents begin after the next <newline>
-	for i, list := range p.stack {
+	for i := p.base; i < len(p.stack); i++ {
+		list := p.stack[i]
 		p.stack[i] = nil
 		for _, r := range list {
 			p.word(r.Heredoc)
@@ -680,6 +682,11 @@ func (p *printer) paramExp(w *ast.ParamExp) {
 }
 
 func (p *printer) cmdSubst(w *ast.CmdSubst) {
+	// a <newline> inside a substitution does not begin the here-documents
+	// of the enclosing command
+	defer func(base int) { p.base = base }(p.base)
+	p.base = len(p.stack)
+
 	if w.Dollar {
 		p.w.WriteString("$(")
 	} else {
@@ -720,6 +727,9 @@ func (p *printer) arithExp(w *ast.ArithExp) {
 }
 
 func (p *printer) arithExpr(list bool, left string, x ast.Word) {
+	defer func(base int) { p.base = base }(p.base)
+	p.base = len(p.stack)
+
 	p.w.WriteString(left)
 	if !list {
 		p.lv++
